@@ -9,6 +9,7 @@ import (
 
 	"github.com/moorara/algo/grammar"
 	"github.com/moorara/algo/parser/lr"
+	"github.com/moorara/algo/parser/lr/lookahead"
 
 	"github.com/gardenbed/emerge/internal/ebnf/parser/spec"
 )
@@ -96,6 +97,20 @@ func cmdLalr(f []string) string {
 	if T == nil {
 		return "NILNIL"
 	}
+	acts, gotos := dumpTable(T, terms, tidx, nidx, pidx)
+	// the same table straight from the dependency's construction: tells a defect of the construction from one of emerge's own code
+	direct := 0
+	if T2, err2 := lookahead.BuildParsingTable(s.Grammar, s.Precedences); err2 == nil && T2 != nil {
+		a2, g2 := dumpTable(T2, terms, tidx, nidx, pidx)
+		if strings.Join(a2, ";") == strings.Join(acts, ";") && strings.Join(g2, ";") == strings.Join(gotos, ";") {
+			direct = 1
+		}
+	}
+	return "OK " + head + " acts=" + strings.Join(acts, ";") + " gotos=" + strings.Join(gotos, ";") + fmt.Sprintf(" direct=%d", direct)
+}
+
+// every ACTION/GOTO entry of a table, in the numbering of the dump
+func dumpTable(T *lr.ParsingTable, terms []string, tidx, nidx map[string]int, pidx func(*grammar.Production) int) ([]string, []string) {
 	var acts, gotos []string
 	all := append(append([]grammar.Terminal{}, T.Terminals...), grammar.Endmarker)
 	for _, st := range T.States {
@@ -125,7 +140,7 @@ func cmdLalr(f []string) string {
 			}
 		}
 	}
-	return "OK " + head + " acts=" + strings.Join(dedupStrings(acts), ";") + " gotos=" + strings.Join(dedupStrings(gotos), ";")
+	return dedupStrings(acts), dedupStrings(gotos)
 }
 
 func dedupStrings(xs []string) []string {
